@@ -812,3 +812,27 @@ NOT_PROVED = list(NOT_PROVED) + [
 PROOF_MODULES = PROOF_MODULES + [m for m in ['Compute.Lemmas.FlModelGrid', 'Compute.Props.RoundingGrid'] if m not in PROOF_MODULES]
 REQUIRED_THEOREMS = REQUIRED_THEOREMS + [t for t in ['Cv.FlModel.grid_abs_sub_le', 'Cv.FlModel.grid_idem', 'Cv.FlModel.grid_mono', 'Cv.FlModel.grid_rnd_one', 'Cv.FlModel.grid_rnd_natCast', 'Cv.FlModel.grid_rnd_dyadic', 'Cv.FlModel.f64grid_u', 'Cv.FlModel.f64grid_mono'] if t not in REQUIRED_THEOREMS]
 NOT_PROVED = list(NOT_PROVED) + ['FlModel has a genuine instance, FlModel.grid p (radix 2, p digits, round to nearest, unbounded exponent; f64grid has u = 2^-53), proved to satisfy the standard model and to be idempotent and monotone, with integers <= 2^p and dyadics exact (Lemmas/FlModelGrid); headline rounding theorems are instantiated on it (Props/RoundingGrid); overflow and underflow remain outside the model']
+
+# --- FINAL (second review round, property owner): complete literal lists; supersedes every earlier NOT_PROVED / TRUSTED / ASSUMPTIONS edit above
+PROOF_MODULES = PROOF_MODULES + [m for m in ['Compute.Lemmas.Decomp'] if m not in PROOF_MODULES]
+REQUIRED_THEOREMS = REQUIRED_THEOREMS + [t for t in [
+    'Cv.C11.det_none_iff', 'Cv.LA.isMatrix_eq_some_iff', 'Cv.LA.isSquare_eq_some_iff',
+    'Cv.C11Review.det_PAmat_eq'] if t not in REQUIRED_THEOREMS]
+NOT_PROVED = [
+    "the growth factor of partial pivoting behind the oracle's norm-wise tolerance c n eps ||A||: NOT proved. Proved in the standard model (Props/RoundingLU, valid without overflow/underflow; LU: when no "
+    "computed pivot is zero): |L L^T - A| <= gamma_(n+1)|L||L^T| and |L U - P A| <= gamma_n |L||U| for the computed factors; the model has a genuine instance (FlModel.grid, unbounded exponent; "
+    "Lemmas/FlModelGrid, Props/RoundingGrid); overflow and underflow remain outside it",
+    "L.L^T = A (cholesky_correct) needs the hypothesis SqrtExactOn (sqrt squares back on the n pivots; true over R, cholesky_correct_real); for input that is symmetric only up to eps = 2^-52 "
+    "(accepted by the assert) only the lower triangle of L.L^T = A is proved; the universal rejection theorem (cholesky_rejects_not_posDef) needs sqrt positive and exact on positives (true over R) "
+    "and exact symmetry",
+    "is_square: the Rust code takes an f32 square root; the model uses the exact integer square root. They agree for every length below 2^24 (at 2^24+1 Rust answers Ok(4096) and the model panics); "
+    "theorems quantifying over the length hold for the code only for fewer than 2^24 elements",
+    "Matrix::lu, Matrix::det, lu_det, the Matrix substitutions, ipiv_parity, is_symmetric and is_square are hand-modelled and tied by run-time bit-exact correspondence only (the slice-level routines are "
+    "additionally regenerated from the Rust text)",
+]
+TRUSTED = [
+    "is_square modelled with an exact integer square root (f32 sqrt is exact below 2^24 elements)",
+    "standard model of floating-point arithmetic (Lemmas/FlModel) as the link between the rounding theorems and IEEE binary64 - valid only without overflow/underflow",
+    "numpy eigenvalue estimate, used only to classify generated symmetric matrices as clearly definite / clearly indefinite (integer matrices: confirmed exactly by Sylvester minors or by an exact rational Cholesky sweep)",
+]
+ASSUMPTIONS = ["default cargo features (no blas/lapack)", "matrix element count < 2^24"]
